@@ -24,7 +24,7 @@ def case_strategy(tier):
     def s(draw):
         cluster = draw(specs.clusters(max_pools=3, single_worker_pools=True))
         n_prof = draw(st.integers(1, 4))
-        profiles = [draw(specs.profile_for(cluster, f"pr{i}", feasible=True, max_runtime=9, contention=draw(st.booleans()))) for i in range(n_prof)]
+        profiles = [draw(specs.profile_for(cluster, f"pr{i}", feasible=True, max_runtime=9, contention=draw(st.booleans()), zero_quantity=True)) for i in range(n_prof)]
         now = draw(st.integers(5, 30))
         n = draw(st.integers(1, 8))
         graphs = []
